@@ -14,3 +14,5 @@ for p in "$@"; do
 done
 git checkout -- . 2>/dev/null
 git status --short | grep -v data.bin
+# the evidence files committed in /verif must describe the unchanged tree: put them back
+git -C /verif checkout -- evidence 2>/dev/null; rm -rf /verif/replays
